@@ -175,9 +175,9 @@ namespace AIToolbox::Factored {
 
             if (sequential_sorted_contains(maxBasis.tag, minBasis.tag)) {
                 if (retvalBigger)
-                    plusEqualSubset(space, curBasis, basis);
+                    minusEqualSubset(space, curBasis, basis);
                 else
-                    curBasis = plusSubset(space, basis, curBasis);
+                    curBasis = plusSubset(space, BasisFunction{basis.tag, -basis.values}, curBasis);
                 merged = true;
 
                 // If the basis is now useless, we remove it.
@@ -188,7 +188,7 @@ namespace AIToolbox::Factored {
             }
         }
         if (!merged)
-            retval.bases.push_back(basis);
+            retval.bases.push_back(BasisFunction{basis.tag, -basis.values});
 
         return retval;
     }
